@@ -13,7 +13,7 @@ Theorem location_label_table enabled db a :
   (parsable a = true -> enabled = false -> lab = []) /\
   (parsable a = true -> enabled = true -> is_global_unicast (addr_ip a) = false -> lab = cc_XL) /\
   (parsable a = true -> enabled = true -> is_global_unicast (addr_ip a) = true ->
-     db (addr_ip a) = DbErr -> lab = cc_XD) /\
+     forall p, db (addr_ip a) = DbErr p -> lab = cc_XD) /\
   (parsable a = true -> enabled = true -> is_global_unicast (addr_ip a) = true ->
      db (addr_ip a) = DbOk [] -> lab = cc_ZZ) /\
   (forall c, parsable a = true -> enabled = true -> is_global_unicast (addr_ip a) = true ->
@@ -25,7 +25,7 @@ Theorem location_cases_exhaustive enabled db a :
   parsable a = false \/
   (parsable a = true /\ enabled = false) \/
   (parsable a = true /\ enabled = true /\ is_global_unicast (addr_ip a) = false) \/
-  (parsable a = true /\ enabled = true /\ is_global_unicast (addr_ip a) = true /\ db (addr_ip a) = DbErr) \/
+  (parsable a = true /\ enabled = true /\ is_global_unicast (addr_ip a) = true /\ exists p, db (addr_ip a) = DbErr p) \/
   (parsable a = true /\ enabled = true /\ is_global_unicast (addr_ip a) = true /\ db (addr_ip a) = DbOk []) \/
   (exists c, parsable a = true /\ enabled = true /\ is_global_unicast (addr_ip a) = true /\ db (addr_ip a) = DbOk c /\ c <> []).
 Proof. exact (cases_exhaustive_lemma enabled db a). Qed.
